@@ -20,6 +20,9 @@ import (
 
 var builtinPtr = map[uintptr]string{}
 
+// variedContexts: see the decoder of D values
+var variedContexts = true
+
 func init() {
 	for name, f := range formula.VerifBuiltins() {
 		if reflect.TypeOf(f).Kind() == reflect.Func {
@@ -281,7 +284,17 @@ func (p *valParser) val() interface{} {
 		if f[0] == "-" {
 			s = "-" + s
 		}
-		d, _ := decimal.WithContext(decimal.Context128).SetString(s)
+		// the decimal CONTEXT a caller's number was created in is not part of its value (the model's numbers are sign,
+		// coefficient, exponent): it varies with the digits, so that a dependence on it shows as a difference
+		ctxs := []decimal.Context{decimal.Context128, {}, {Precision: 40}, {Precision: decimal.UnlimitedPrecision}, decimal.Context64, {Precision: 100, RoundingMode: decimal.ToZero}}
+		pick := 0
+		if variedContexts {
+			pick = (len(f[1])*7 + len(f[2])*3 + int(f[1][len(f[1])-1]-'0')) % len(ctxs)
+		}
+		d, _ := decimal.WithContext(ctxs[pick]).SetString(s)
+		if chk, _ := decimal.WithContext(decimal.Context128).SetString(s); pick != 0 && (d == nil || chk == nil || d.Cmp(chk) != 0 || d.Scale() != chk.Scale()) {
+			d = chk // this context did not keep the digits as written
+		}
 		return d
 	case 'S':
 		return string(unhx(t[1:]))
